@@ -15,6 +15,7 @@ import H3.Drv.C04
 import H3.Drv.C08
 import H3.Drv.C09
 import H3.Drv.C14
+import H3.Drv.C03
 open H3.Drv
 
 def dispatch (ws : List String) : String :=
@@ -36,6 +37,7 @@ def dispatch (ws : List String) : String :=
     else if e == "ctl" then H3.Drv.C04.handle ws
     else if e == "goaway" || e == "goawayj" then H3.Drv.C08.handle ws
     else if e == "drain" then H3.Drv.C09.handle ws
+    else if e == "req" then H3.Drv.C03.handle ws
     else if e == "wbuf" || e == "out" || e == "outlog" then H3.Drv.C14.handle ws
     else "bad-op"
 
